@@ -24,7 +24,7 @@ LEVEL = "fault_enumeration"
 ALPHABET = ["normal", "zero", "tiny", "huge", "overflow", "nan", "inf"]
 MODERATE = {"normal", "zero", "tiny", "huge"}
 RULE = ("fault enumeration: for each configuration in {failure threshold 0,1e-30,0.1,1e30} x {matrix epsilon 0,1e-6} x {Newton,eigh} "
-        "x {preconditioner interval 1,2} x {jit, pmap int16-quantised, sharded 2-device mesh} x {x64 on, off}, plus 72 configurations with all-1x1 statistics, a 64x64 statistic, or a padded 1x1 statistic among larger ones (ragged last block), plus 24 configurations with a 1600-entry leaf, plus 40 configurations with compressed / frequent-directions / LOBPCG-deflated (top-1, and top-2 after a single iteration) / warm-started roots, plus 12 with normalised grafting (thorough: x graft {SGD, RMSProp, normalised AdaGrad}), ALL words of length T "
+        "x {preconditioner interval 1,2} x {jit, pmap int16-quantised, sharded 2-device mesh} x {x64 on, off}, plus 72 configurations with all-1x1 statistics, a 64x64 statistic, or a padded 1x1 statistic among larger ones (ragged last block), plus 24 configurations with a 1600-entry leaf, plus 48 configurations with compressed / frequent-directions (with and without reset_preconditioner) / LOBPCG-deflated (top-1, and top-2 after a single iteration) / warm-started roots, plus 12 with normalised grafting (thorough: x graft {SGD, RMSProp, normalised AdaGrad}), ALL words of length T "
         "(T=3 quick: 343 words, 399 steps; thorough T=5 restricted to <=3 non-normal letters) over the alphabet "
         "{normal, zero, tiny 1e-12, huge 1e12, overflow 1e30, NaN entry, +-Inf entry} are replayed through one compiled step; "
         "evaluations = words; a word is non-trivial when it contains a rejected root attempt or a poisoned (NaN/Inf/overflow) step; "
@@ -65,7 +65,7 @@ def all_configs(tier="quick"):
     out.append({"x64": x64, "mode": mode, "thr": 0.1, "eps": eps, "eigh": eigh, "interval": 2, "tree": "large"})
   # other preconditioner representations / root routines: low-rank compressed, frequent-directions sketch, LOBPCG-deflated
   # Newton, warm-started (reuse_preconditioner); tree with statistics large enough for them
-  for x64, mode, interval, rep in itertools.product([True, False], ["jit", "sharded"], [1, 2], ["comp", "fd", "lobpcg", "lobpcg2", "reuse"]):
+  for x64, mode, interval, rep in itertools.product([True, False], ["jit", "sharded"], [1, 2], ["comp", "fd", "fd_reset", "lobpcg", "lobpcg2", "reuse"]):
     if rep == "fd" and x64 and False:
       continue
     out.append({"x64": x64, "mode": mode, "thr": 0.1, "eps": 1e-6, "eigh": False, "interval": interval,
@@ -132,6 +132,11 @@ def make_runner(c):
     cfg["compression_rank"] = 1
   elif rep == "fd":
     cfg.update(compression_rank=1, frequent_directions=True, reuse_preconditioner=True, statistics_compute_steps=c["interval"])
+  elif rep == "fd_reset":
+    # reset_preconditioner: the sketch is restarted every round(1/(1-beta2)) = 2 steps; a rejected root on a reset step must
+    # still leave the stored preconditioner untouched
+    cfg.update(compression_rank=1, frequent_directions=True, reuse_preconditioner=True, reset_preconditioner=True,
+               statistics_compute_steps=c["interval"], beta2=0.5)
   elif rep == "lobpcg":
     cfg["lobpcg_topk_precondition"] = 1
   elif rep == "lobpcg2":
@@ -175,7 +180,7 @@ def check_step(c, word, t, pre, post, un, rec):
           rejected_here = True
         else:
           rec.count("accepts")
-      if changed and c["x64"] and c["mode"] != "pmapq" and not c.get("rep") in ("comp", "fd") and all(l in MODERATE for l in word):
+      if changed and c["x64"] and c["mode"] != "pmapq" and not c.get("rep") in ("comp", "fd", "fd_reset") and all(l in MODERATE for l in word):
         # "verified" is checked, not taken on trust: on moderate words (no overflow/NaN/Inf letter; float64 roots) an installed root
         # must satisfy the C01 residual oracle against the statistics stored in the same state
         from vmon.monitors import c02
